@@ -168,7 +168,8 @@ def analyse(prog, functions):
 
 
 def set_order_rule(ctx, rep, rule, exempt, modules=None):
-    """exempt: {(module, qualname, construct prefix): reason} - reviewed sites"""
+    """exempt: {(module, qualname, construct prefix): reason} - reviewed sites; in the prefix `_` stands for any local
+    variable of the function (a renamed local is the same site)"""
     prog = ctx.prog
     name = "verif_setorder_positive"
     if name not in prog.modules:
@@ -180,9 +181,18 @@ def set_order_rule(ctx, rep, rule, exempt, modules=None):
     funcs = [f for f in prog.all_functions() if not f.module.path.startswith("<") and not f.module.name.startswith("ufl.formatting") and (modules is None or f.module.name in modules)]
     hits, n_sets, n_uses = analyse(prog, funcs)
     used = set()
+    import re as _re
+
+    from .memokey import _fn_locals
+
+    def anonymous(text, locs):
+        """local variable names are not part of a reviewed site: every local identifier becomes `_`"""
+        return _re.sub(r"(?<![.\w])([A-Za-z_]\w*)", lambda m: "_" if m.group(1) in locs else m.group(1), text)
+
     for fi, node, why in hits:
         construct = norm(node)[:120]
-        key = next((k for k in exempt if k[0] == fi.module.name and k[1] == fi.qualname and construct.startswith(k[2])), None)
+        anon = anonymous(construct, _fn_locals(fi.node))
+        key = next((k for k in exempt if k[0] == fi.module.name and k[1] == fi.qualname and (construct.startswith(k[2]) or anon.startswith(k[2]))), None)
         if key is not None:
             used.add(key)
             rep.ok(rule, (fi, node), f"reviewed: {exempt[key]}")
